@@ -145,10 +145,17 @@ def handle(pid, ops_or_len, rng, profile, drv, res, origin):
     accepted = sum(1 for _ in script)
     res.case(stable_hash(script), nontrivial=len(script) >= 3)
     res.sample({"origin": origin, "length": len(script), "first_ops": script[:6]})
+    done = res.setdefault("_shrunk", set())
     for f in findings:
+        if f["kind"] == "spec" and f["prop"] != pid:
+            continue          # reported by the check of the property it belongs to
+        if f["signature"] in done:
+            # already minimised once in this shard: record the occurrence only
+            if f["kind"] == "spec":
+                res.spec_failure(f["signature"], {"script": script[:f["step"] + 1]}, f["detail"])
+            continue
+        done.add(f["signature"])
         if f["kind"] == "spec":
-            if f["prop"] != pid:
-                continue      # reported by the check of the property it belongs to
             small = shrink(script[:f["step"] + 1], f["signature"], profile, drv, pid)
             res.spec_failure(f["signature"], {"script": small}, f["detail"])
         else:
